@@ -37,7 +37,7 @@ FluxVerdict(e) ==
       hi == V3(i.hi)
       full == <<i.full[1], i.full[2], i.full[3]>>
       q == e.meas.q
-      TolInt12 == IF AllFar(scene, ch, CellCorners(lo, hi)) THEN TolFar12 ELSE TolNear12
+      TolInt12 == IF AllFarCell(scene, ch, lo, hi) THEN TolFar12 ELSE TolNear12
   IN IF ~FluxPremise(scene, ch, lo, hi, full) THEN <<"machinery", "Premise">>
      ELSE IF Seqify(e.der.faces) # Faces(ch, lo, hi, full) THEN <<"machinery", "Faces">>
      ELSE IF \E k \in 1..3 : Range(e.der.brk[k]) # CellBreaks(scene, ch, lo, hi)[k] THEN <<"machinery", "Breaks">>
